@@ -27,7 +27,7 @@ def plan(tier, seed):
 def thresholds(tier):
   t = {"programs": 220, "cycles_cosimulated": 5000, "driver_sets_analysed": 3000, "corpus_cases_cosimulated": 50,
        "stdlib_components_cosimulated": 60, "generated_designs_cosimulated": 150, "param_designs_cosimulated": 60, "svsim_lrm_examples_ok": 24, "struct_constants_evaluated_in_text": 40, "hetero_list_designs": 16, "localname_designs_cosimulated": 30,
-       "struct_leaf_ports_mapped": 300, "array_element_ports_mapped": 300}
+       "struct_leaf_ports_mapped": 300, "array_element_ports_mapped": 300, "child_port_list_designs_cosimulated": 20, "const_struct_connection_designs_cosimulated": 20}
   if tier == "thorough":
     t.update({"programs": 2400, "generated_designs_cosimulated": 2200, "cycles_cosimulated": 50000})
   return t
@@ -194,6 +194,8 @@ def run_shard(sh):
   T.feedback_stream(sh, "ys", 4 if sh.tier == "quick" else 40, mech)
   T.consttbl_stream(sh, "ys", 4 if sh.tier == "quick" else 40, mech)
   T.ifcportlist_stream(sh, "ys", 3 if sh.tier == "quick" else 30, mech)
+  T.childportlist_stream(sh, "ys", 3 if sh.tier == "quick" else 30, mech)
+  T.conststructconn_stream(sh, "ys", 3 if sh.tier == "quick" else 30, mech)
   T.liststruct_stream(sh, "ys", 3 if sh.tier == "quick" else 30, mech)
   T.constuse_stream(sh, "ys", 4 if sh.tier == "quick" else 40, mech)
   T.localname_stream(sh, "ys", 4 if sh.tier == "quick" else 40, mech)
